@@ -65,6 +65,7 @@ type FuncContract struct {
 	CallSpecs      []*CallSpec
 	Used           bool
 	NoCalls        bool
+	NilCalls       bool // `nilcalls`: calls of function values are checked against nil in this function
 	SQLTexts       []string
 	Behaviors      []*FuncContract // further behaviours of the same function (each verified separately)
 	Behavior       string
@@ -249,7 +250,7 @@ func parseParams(s string) []SpecParam {
 	return out
 }
 
-var clauseKw = map[string]bool{"behavior": true, "ensuresassumed": true, "ensureslocal": true, "split": true, "definitional": true, "lazyspecs": true, "sameas": true, "consttext": true, "calledonlyby": true, "set": true, "choose": true, "sqltext": true, "except": true, "allowcalls": true, "nocalls": true, "ensureserror": true, "ensureszero": true, "requires": true, "ensures": true, "modifies": true, "loop": true, "inline": true,
+var clauseKw = map[string]bool{"behavior": true, "ensuresassumed": true, "ensureslocal": true, "split": true, "definitional": true, "lazyspecs": true, "sameas": true, "consttext": true, "calledonlyby": true, "nilcalls": true, "set": true, "choose": true, "sqltext": true, "except": true, "allowcalls": true, "nocalls": true, "ensureserror": true, "ensureszero": true, "requires": true, "ensures": true, "modifies": true, "loop": true, "inline": true,
 	"trusted": true, "pure": true, "opaque": true, "nonnil": true, "props": true, "maypanic": true, "params": true,
 	"assert": true, "call": true}
 
@@ -709,6 +710,10 @@ func (cs *ContractSet) ParseFile(path, pkgPath string) error {
 		case "nocalls":
 			if cur != nil {
 				cur.NoCalls = true
+			}
+		case "nilcalls":
+			if cur != nil {
+				cur.NilCalls = true
 			}
 		case "calledonlyby":
 			if cur != nil {
